@@ -6,6 +6,7 @@ import (
 	"math/rand"
 	"runtime"
 	"sync"
+	"sync/atomic"
 
 	"github.com/kwertop/gostatix"
 )
@@ -29,6 +30,7 @@ func suiteConc(c *Ctx) {
 		concCMS(c, g)
 		concHLL(c, g)
 		concCuckoo(c, g)
+		concCuckooRemoveStorm(c, g)
 		concTopK(c, g)
 	}
 }
@@ -412,4 +414,54 @@ func concTopK(c *Ctx, g int) {
 		c.fail([]string{"C07", "C04"}, "conc-final-state", fmt.Sprintf("TopK: after %d concurrent goroutines Values=%v violates the Top-K clauses (size %d, no duplicates, true total <= count <= stream total, unreported elements no heavier than the smallest reported count) for totals %v", g, vals, k, truth), replay)
 	}
 	c.nontrivial(fmt.Sprint("topk", g, len(truth)))
+}
+
+// several goroutines remove the same element at the same moment while fewer copies are stored:
+// each stored copy can be removed exactly once (Remove = true), Length follows
+func concCuckooRemoveStorm(c *Ctx, g int) {
+	f := gostatix.NewCuckooFilterWithRetries(16, 4, 6, 50)
+	c.rep.Cases++
+	rounds := 40
+	var bad string
+	for r := 0; r < rounds && bad == ""; r++ {
+		e := []byte(fmt.Sprintf("storm-%d", r%5))
+		copies := 1 + r%2
+		stored := 0
+		for i := 0; i < copies; i++ {
+			ok := false
+			safely(func() { ok = f.Insert(e, false) })
+			if ok {
+				stored++
+			}
+		}
+		before := f.Length()
+		var succ int64
+		var wg sync.WaitGroup
+		start := make(chan struct{})
+		for w := 0; w < g; w++ {
+			wg.Add(1)
+			go func() {
+				defer wg.Done()
+				<-start
+				if f.Remove(e) {
+					atomic.AddInt64(&succ, 1)
+				}
+			}()
+		}
+		close(start)
+		wg.Wait()
+		want := stored
+		if g < want {
+			want = g
+		}
+		if int(succ) != want || f.Length() != before-uint64(want) {
+			bad = fmt.Sprintf("%d goroutines removed %q (%d stored copies) at once: %d removes reported success, Length went from %d to %d", g, e, stored, succ, before, f.Length())
+		}
+		for f.Remove(e) {
+		}
+	}
+	c.rep.Ops["cuckoo.remove-storm"] += rounds
+	if bad != "" {
+		c.fail([]string{"C07", "C13"}, "conc-remove-more-than-stored", "CuckooFilter: "+bad, map[string]interface{}{"structure": "CuckooFilter", "goroutines": g})
+	}
 }
